@@ -37,7 +37,7 @@ Qed.
 Lemma anG_list_cons t r y : anG_list fx (SCons t r) y = consG t (fun a => orbG t (anG fx t a)) (anG_list fx r) y.
 Proof. reflexivity. Qed.
 Lemma anG_cases_cons cp d ft b r y :
-  anG_cases fx (CCons cp d ft b r) y = consC (visit_caseG fx cp b (anG_list fx b)) (anG_cases fx r) y.
+  anG_cases fx (CCons cp d ft b r) y = consC (fun y => visit_caseG fx cp b (anG_list fx b) (visit_test d y)) (anG_cases fx r) y.
 Proof. reflexivity. Qed.
 
 Lemma tops_ok l : NoDup (keys_l l) -> forall x, fresh x (keys_l l) ->
@@ -488,6 +488,14 @@ Proof. intros Hn x Hf. destruct (an_anG fx) as [_ [_ HC]]. apply (HC cs Hn x Hf)
 Lemma frc_case cp b : NoDup (keys_l b) -> frc (visit_caseG fx cp b (anG_list fx b)) (cp :: keys_l b).
 Proof. intros Hn x Hf. destruct (an_anG fx) as [_ [HL _]]. apply (sim_case fx cp b _ _ _ (HL b Hn) x Hf). Qed.
 
+(* a step that leaves the map alone, before a closure *)
+Lemma cokc_pre g S K (f : st -> st) : cokc g S K -> (forall x, info (f x) = info x) -> cokc (fun x => g (f x)) S K.
+Proof. intros H Hi x Hf. apply H. eapply fresh_info; [apply Hi | exact Hf]. Qed.
+Lemma frc_pre g K (f : st -> st) : frc g K -> (forall x, info (f x) = info x) -> frc (fun x => g (f x)) K.
+Proof.
+  intros H Hi x Hf. eapply frame_trans; [apply (frame_info x (f x)); apply Hi|]. apply H. eapply fresh_info; [apply Hi | exact Hf].
+Qed.
+
 Lemma cokS_orb s : cokS s -> NoDup (keys s) -> cokc (fun a => orbG s (anG fx s a)) (SK (keys s) (pos s)) (keys s).
 Proof. intros H Hn. apply cok_orb. apply H. exact Hn. Qed.
 
@@ -555,9 +563,10 @@ Proof.
     eapply cokcs_ext; [intros x; apply anG_cases_cons|].
     unfold cokC in *. cbn [keys_c]. change (cp :: keys_l b ++ keys_c r) with ((cp :: keys_l b) ++ keys_c r).
     apply (cok_consC _ _ _ _ cp).
-    + apply cok_case; [exact Hnb | apply IHb; exact Hnb | intros Hk; apply Hp, in_or_app; left; exact Hk].
+    + apply (cokc_pre _ _ _ (visit_test d)); [|apply info_visit_test].
+      apply cok_case; [exact Hnb | apply IHb; exact Hnb | intros Hk; apply Hp, in_or_app; left; exact Hk].
     + apply IHr. exact Hnr.
-    + apply frc_case. exact Hnb.
+    + apply (frc_pre _ _ (visit_test d)); [apply frc_case; exact Hnb | apply info_visit_test].
     + apply frcs_cases. exact Hnr.
     + intros k [<-|Hk] Hk'; [apply Hp, in_or_app; right; exact Hk' | exact (Hd k Hk Hk')].
 Qed.
@@ -649,19 +658,20 @@ Proof. unfold visit_caseG. destruct (g (child_enter KCase y)) as [[c tops] lg]. 
 Lemma cases_entries cs b : case_in b cs -> forall y, exists stops, In (GCase b (live_now y) stops) (c_lg (anG_cases fx cs y)).
 Proof.
   induction 1 as [cp d ft b r | b' cp d ft b r Hin IH]; intros y; rewrite anG_cases_cons; unfold consC.
-  - unfold visit_caseG. destruct (anG_list fx b (child_enter KCase y)) as [[c tops] lg].
-    destruct (anG_cases fx r _) as [[y2 rs] lg2]. exists (tops_stop tops). cbn [c_lg snd]. left. reflexivity.
-  - pose proof (end_visit_case cp b (anG_list fx b) y) as He.
-    destruct (visit_caseG fx cp b (anG_list fx b) y) as [[y1 r1] lg1]. cbn [g_st fst] in He.
+  - unfold visit_caseG. destruct (anG_list fx b (child_enter KCase (visit_test d y))) as [[c tops] lg].
+    destruct (anG_cases fx r _) as [[y2 rs] lg2]. exists (tops_stop tops). cbn [c_lg snd]. left.
+    unfold live_now. rewrite end_visit_test. reflexivity.
+  - pose proof (end_visit_case cp b (anG_list fx b) (visit_test d y)) as He. rewrite end_visit_test in He.
+    destruct (visit_caseG fx cp b (anG_list fx b) (visit_test d y)) as [[y1 r1] lg1]. cbn [g_st fst] in He.
     destruct (IH y1) as [stops Hs]. destruct (anG_cases fx r y1) as [[y2 rs] lg2]. cbn [c_lg snd] in *.
     exists stops. apply in_or_app. right. unfold live_now in *. rewrite <- He. exact Hs.
 Qed.
 
 Lemma lg_consC cp d ft b r y :
   exists y2, c_lg (anG_cases fx (CCons cp d ft b r) y) =
-    g_lg (visit_caseG fx cp b (anG_list fx b) y) ++ c_lg (anG_cases fx r y2).
+    g_lg (visit_caseG fx cp b (anG_list fx b) (visit_test d y)) ++ c_lg (anG_cases fx r y2).
 Proof.
-  rewrite anG_cases_cons. unfold consC. destruct (visit_caseG fx cp b (anG_list fx b) y) as [[y1 r1] lg1].
+  rewrite anG_cases_cons. unfold consC. destruct (visit_caseG fx cp b (anG_list fx b) (visit_test d y)) as [[y1 r1] lg1].
   exists y1. destruct (anG_cases fx r y1) as [[y2 rs] lg2]. reflexivity.
 Qed.
 Lemma lg_case cp b g y : exists stops, g_lg (visit_caseG fx cp b g y) = GCase b (live_now y) stops :: l_lg (g (child_enter KCase y)).
@@ -748,7 +758,7 @@ Proof.
   - intros t s r _ IH sw cs E x. destruct (lg_cons s r x) as [y2 Eq]. rewrite Eq.
     eapply has_entries_incl; [apply (IH sw cs E) | apply incl_appr, incl_refl].
   - intros t cp d ft b r _ IH sw cs E x. destruct (lg_consC cp d ft b r x) as [y2 Eq]. rewrite Eq.
-    destruct (lg_case cp b (anG_list fx b) x) as [stops Ec]. rewrite Ec.
+    destruct (lg_case cp b (anG_list fx b) (visit_test d x)) as [stops Ec]. rewrite Ec.
     eapply has_entries_incl; [apply (IH sw cs E) | apply incl_appl, incl_tl, incl_refl].
   - intros t cp d ft b r _ IH sw cs E x. destruct (lg_consC cp d ft b r x) as [y2 Eq]. rewrite Eq.
     eapply has_entries_incl; [apply (IH sw cs E) | apply incl_appr, incl_refl].
